@@ -37,6 +37,7 @@ class Run:
         self.final_s = 0.0
         self.notes = []
         self._npaths = 0
+        self._extreme_samples = 0
 
     def region(self, name):
         self.regions.add(name)
@@ -75,14 +76,29 @@ class Run:
         self.final_s += time.time() - t0
         return r
 
-    def validate(self, ctx, concretize, predict):
+    def validate(self, ctx, concretize, predict, extremes=None, known=None):
         """translator validation: pick a model of this path, record concrete inputs and the
-        outputs SX predicts for them; the driver runs the real code on them in a plain interpreter."""
-        if len(self.validations) >= MAX_VALIDATIONS_PER_INST:
+        outputs SX predicts for them; the driver runs the real code on them in a plain interpreter.
+        extremes: optional z3 Bool ("some input sits on a boundary of its range"); if satisfiable on this path a second,
+        boundary-biased sample is recorded as well (machine-integer effects live on the boundaries)."""
+        if len(self.validations) >= MAX_VALIDATIONS_PER_INST + (2 if extremes is not None else 0):
             return
-        ctx._ensure_model()
-        m = ctx.model
-        self.validations.append({"inputs": concretize(m), "predicted": predict(m)})
+        import z3
+        # inputs inside the class of an open known finding are validated (prediction vs real) but not judged again
+        kn = [v for k, v in (known or {}).items() if k in self.open_keys]
+        kn = z3.Or([v if not isinstance(v, bool) else z3.BoolVal(v) for v in kn]) if kn else None
+
+        def in_known(m):
+            return bool(kn is not None and z3.is_true(m.eval(kn, model_completion=True)))
+        if len(self.validations) < MAX_VALIDATIONS_PER_INST:
+            ctx._ensure_model()
+            m = ctx.model
+            self.validations.append({"inputs": concretize(m), "predicted": predict(m), "nojudge": in_known(m)})
+        if extremes is not None and self._extreme_samples < 2:
+            r, m2 = ctx.query(extremes)
+            if r == "sat":
+                self._extreme_samples += 1
+                self.validations.append({"inputs": concretize(m2), "predicted": predict(m2), "nojudge": in_known(m2)})
 
     def sample(self, obj):
         if len(self.samples) < 2:
@@ -218,10 +234,11 @@ def run_check(prop, tier, seed, jobs=None):
             cex_items.append({"spec": r["spec"], "inputs": c["inputs"], "ob": c["ob"], "known_key": c["known_key"],
                               "extra": c.get("extra"), "soft": c.get("soft", False)})
         for v in r["validations"]:
-            val_items.append({"spec": r["spec"], "inputs": v["inputs"], "ob": None, "predicted": v["predicted"]})
+            val_items.append({"spec": r["spec"], "inputs": v["inputs"], "ob": None, "predicted": v["predicted"], "nojudge": v.get("nojudge", False)})
 
     # ---- translator validation against the real code in an unpatched interpreter
     validated = 0
+    val_violations = []
     try:
         outs = plain_batch(prop, val_items)
         for it, o in zip(val_items, outs):
@@ -230,7 +247,11 @@ def run_check(prop, tier, seed, jobs=None):
                 continue
             pred = it["predicted"]
             bad = {k: (pred[k], o["outputs"].get(k)) for k in pred if o["outputs"].get(k) != pred[k]}
-            if bad:
+            if o.get("violated") and not it.get("nojudge"):
+                # the real code, run on inputs chosen by the solver, violates the property according to the plain oracle:
+                # a genuine, already replayed violation (typically machine-integer behaviour that SX's unbounded integers do not show)
+                val_violations.append((it, o))
+            elif bad:
                 harness_errors.append((it["spec"]["name"], "HARNESS-MISMATCH (validation) inputs=%s predicted-vs-real=%s"
                                        % (json.dumps(it["inputs"]), json.dumps(bad))))
             else:
@@ -276,6 +297,12 @@ def run_check(prop, tier, seed, jobs=None):
             path = os.path.join(rep_dir, "%s-%s-%d.json" % (it["spec"]["name"], str(it["ob"]).replace("/", "_")[:40], len(violations)))
             json.dump({"property": prop, "spec": it["spec"], "inputs": it["inputs"], "ob": it["ob"], "observed": o}, open(path, "w"), indent=1)
             violations.append((path, o.get("msg", "")))
+
+    for it, o in val_violations[:3]:
+        os.makedirs(rep_dir, exist_ok=True)
+        path = os.path.join(rep_dir, "%s-validation-%d.json" % (it["spec"]["name"], len(violations)))
+        json.dump({"property": prop, "spec": it["spec"], "inputs": it["inputs"], "ob": "validation", "observed": o}, open(path, "w"), indent=1)
+        violations.append((path, "[found when the real code was run on a solver-chosen input] " + o.get("msg", "")))
 
     # ---- open known findings: replay stored witnesses
     for f in open_f:
